@@ -199,9 +199,10 @@ def commandBody (sub : String) (args : List String) (c : Col) : Except Err Strin
     | _ => .ok ""
   | _ => .ok ""
 
-/-- `MixCommand`: the base colour and the fraction are evaluated for every colour (inside the
-loop), then `mix(base, color, Fraction::from(1 − F))` in the named space. `args = [base,
-fraction, colorspace]`; the base may itself be `-` (one stdin line). -/
+/-- `MixCommand` (since 940cd78): the base colour is read once, at the first colour, and cached in
+the command object (`cached`); the fraction is evaluated for every colour; then
+`mix(base, color, Fraction::from(1 − F))` in the named space. `args = [base, fraction,
+colorspace]`; the base may itself be `-` (one stdin line, consumed once). -/
 def mixBody (args : List String) (cached : Option Col) (c : Col) (stdin : List StdinLine) :
     Except Err String × List StdinLine × Option Col :=
   match args with
